@@ -118,3 +118,13 @@ chk("C27", MC,
     "every step coil/target/error are compared with the statement (position check for safeState=closed, error reaction for "
     "both settings). All paths explored.",
     PY_NOTE, "symbolic execution of the real device code over bounded histories with a symbolic clock (z3)", "B:8/C27")
+
+chk("C16", MC,
+    "The real Terminal.sdo_read/sdo_write/mbx_send/mbx_recv coroutines (through the real roundtrip encoding and MailboxLock) "
+    "run symbolically against a protocol-conformant CoE server model (ETG.1000.6: expedited, normal, segmented download and "
+    "upload): value length 1..mailbox+12 (thorough 2*mailbox+8) and content, index and subindex symbolic; mailbox sizes "
+    "enumerated; complete access and subindex; response delays and an unrelated EoE mail chosen by the solver. Obligations: "
+    "server-side stored bytes == written bytes, returned bytes == server bytes, toggle bits alternate from 0, mailbox counters "
+    "cycle, every message fits the mailbox, no conformance complaint from the server, no exception.",
+    PY_NOTE + " CoE server model vf/coemodel.py written from ETG.1000.6 5.6.2.",
+    "symbolic execution of the real coroutines against a nondeterministic protocol server model (z3, path-exhaustive)", "B:8/C16")
